@@ -8,7 +8,7 @@ from ..harness import Result
 
 PROP = "C12"
 LEVEL = "exploration"
-RUNS = {"quick": 60000, "thorough": 3000000}
+RUNS = {"quick": 60000, "thorough": 8000000}
 OPS_KEYS = ("ops",)
 INFO = {
     "rule": "seeded histories (<= 40 operations) of register / dispatch / query on one dispatcher with "
